@@ -174,6 +174,9 @@ func (p2 *progressWriter) Write(p []byte) (n int, err error) {
 
 func (s *SnappySnapshotCache) writeDataToSnapshot(snap *snapshot) {
 	s.counterBinSnapsGenerated.Inc()
+	if simYield != nil {
+		simYield("binsnap-write-start")
+	}
 	snappyW := snappy.NewBufferedWriter(snap.buf)
 	progressW := progressWriter{W: snappyW}
 	encoder := gob.NewEncoder(&progressW)
